@@ -11,6 +11,9 @@ WORK = os.path.join(VERIF, ".work")
 SPEC = os.path.join(VERIF, "spec")
 HARNESS = os.path.join(VERIF, "harness")
 EVID = os.path.join(VERIF, "evidence")
+if os.environ.get("VERIF_REPO"):
+    # a run against a scratch copy of the repository (mutant testing): its evidence must not replace the evidence of /repo
+    EVID = os.path.join(VERIF, ".work", "evidence-shadow")
 REPLAYS = os.path.join(WORK, "replays")
 JAR_CP = "/opt/veriftools/tla/tla2tools.jar:/opt/veriftools/tla/CommunityModules-deps.jar"
 GUARD = "bump_scope_verif"
